@@ -297,7 +297,6 @@ def colliding_name_models() -> Iterator[Tuple[str, str]]:
         yield f"collide-support-prop-{p}", HEADER_MM + _cls("Thing", [(p, "str")])
 
 
-<<<<<<< HEAD
 # --------------------------------------------------------------------------- edge shapes (seed independent)
 
 #: expressions (over ``self.flag: bool`` and ``self.val: str``) that the front end accepts although they are unusual at their
@@ -398,7 +397,8 @@ def edge_models() -> Iterator[Tuple[str, str]]:
     yield "edge-function-fstring-implication", _edge_function_model(EDGE_INVARIANT_EXPRS[2][1])
     for name, desc in EDGE_DESCRIPTIONS:
         yield f"edge-description-{name}", _edge_description_model(desc)
-=======
+
+
 # --------------------------------------------------------------------------- boolean shapes the type inferrer narrows on
 #
 # ``intermediate/type_inference.py:_Inferrer`` keeps a counting map of the expressions known to be non-None while it
@@ -832,7 +832,6 @@ def text_models(full: bool) -> Iterator[Tuple[str, str]]:
     if full:
         for cls, chars in TEXT_CLASSES:
             yield f"text-{cls}-everywhere", text_model({s: chars for s in TEXT_DESC_SITES + value_sites(chars)})
->>>>>>> 9c8ee2a025aaf362fb09754e45eb5876fba03438
 
 
 def fixture_models() -> List[pathlib.Path]:
@@ -907,18 +906,17 @@ def all_models(ctx: Ctx) -> Iterator[Tuple[str, str, str]]:
         yield name, "hierarchy", text
     for name, text in colliding_name_models():
         yield name, "collision", text
-<<<<<<< HEAD
     for name, text in edge_models():
         yield name, "edge", text
     # one model, every target, every snippet of the complete set left out once (see run_model / _work)
     yield "specific-model-with-incomplete-snippets", "incomplete-snippets", SPECIFIC_MODEL
-=======
+
+
     deep = ctx.searching or ctx.tier != "quick"
     for name, text in narrowing_models(solo=deep, group=8):
         yield name, "narrowing", text
     for name, text in text_models(full=deep):
         yield name, "text", text
->>>>>>> 9c8ee2a025aaf362fb09754e45eb5876fba03438
     yield from random_models(ctx.rng, ctx.n(12, 500), 1 if ctx.tier == "quick" else 8, ctx.n(3, 100))
 
 
